@@ -372,22 +372,34 @@ func specGateOK(e int, status uint8, mbr, gbr uint64) bool {
 		implies(gbr <= mbr && mbr < 1<<40, gfield("qer.pir", e) == mbr*125 && gfield("qer.cir", e) == maxUint64(gbr*125, 1))
 }
 
+// The ghost log "qer" summarises the arguments of every add*QER call (ghost definition); what the call
+// really sends is proved against the "bess" log (C03).
 //@ func (b *bess) addApplicationQER(ctx context.Context, gate uint64, srcIface uint8, cir uint64, pir uint64, cbs uint64, pbs uint64, ebs uint64, qer qer)
-//@   trusted
+//@   freshwrites pb.QosCommandDeleteArg, pb.QosCommandAddArg, pb.FieldData, pb.FieldData_ValueInt, pb.CommandRequest, E:*pb.FieldData
+//@   requires b != nil && b.client != nil
 //@   appends qer
-//@   ensures specQerEntry(gentry("qer", glen("qer")-1), 0, srcIface, gate, cir, pir, cbs, pbs, ebs, qer)
+//@   defines specQerEntry(gentry("qer", glen("qer")-1), 0, srcIface, gate, cir, pir, cbs, pbs, ebs, qer)
+//@   ensures glen("qer") == old[int](glen("qer"))+1 && gint("marshalfail") >= old[int](gint("marshalfail"))
+//@   ensures C03.qer.app.add.count: glen("bess") <= old[int](glen("bess"))+1 && (gint("marshalfail") == old[int](gint("marshalfail")) ==> glen("bess") == old[int](glen("bess"))+1)
+//@   ensures C03.qer.app.add.key: glen("bess") == old[int](glen("bess"))+1 ==> specBessCmd(gentry("bess", old[int](glen("bess"))), AppQerLookup, "add") && live(specSliceCmd(gentry("bess", old[int](glen("bess"))))) && specAppQerKey(specSliceCmd(gentry("bess", old[int](glen("bess")))).Fields, srcIface, qer)
+//@   ensures C03.qer.app.add.values: glen("bess") == old[int](glen("bess"))+1 ==> specQosArg(specSliceCmd(gentry("bess", old[int](glen("bess")))), gate, cir, pir, cbs, pbs, ebs) && specInts(specSliceCmd(gentry("bess", old[int](glen("bess")))).Values, 1) && specFD(specSliceCmd(gentry("bess", old[int](glen("bess")))).Values[0]) == uint64(qer.qfi)
 
 //@ func (b *bess) addSessionQER(ctx context.Context, gate uint64, srcIface uint8, cir uint64, pir uint64, cbs uint64, pbs uint64, ebs uint64, qer qer)
-//@   trusted
+//@   freshwrites pb.QosCommandDeleteArg, pb.QosCommandAddArg, pb.FieldData, pb.FieldData_ValueInt, pb.CommandRequest, E:*pb.FieldData
+//@   requires b != nil && b.client != nil
 //@   appends qer
-//@   ensures specQerEntry(gentry("qer", glen("qer")-1), 1, srcIface, gate, cir, pir, cbs, pbs, ebs, qer)
+//@   defines specQerEntry(gentry("qer", glen("qer")-1), 1, srcIface, gate, cir, pir, cbs, pbs, ebs, qer)
+//@   ensures glen("qer") == old[int](glen("qer"))+1 && gint("marshalfail") >= old[int](gint("marshalfail"))
+//@   ensures C03.qer.sess.add.count: glen("bess") <= old[int](glen("bess"))+1 && (gint("marshalfail") == old[int](gint("marshalfail")) ==> glen("bess") == old[int](glen("bess"))+1)
+//@   ensures C03.qer.sess.add.key: glen("bess") == old[int](glen("bess"))+1 ==> specBessCmd(gentry("bess", old[int](glen("bess"))), SessQerLookup, "add") && live(specSliceCmd(gentry("bess", old[int](glen("bess"))))) && specSessQerKey(specSliceCmd(gentry("bess", old[int](glen("bess")))).Fields, srcIface, qer)
+//@   ensures C03.qer.sess.add.values: glen("bess") == old[int](glen("bess"))+1 ==> specQosArg(specSliceCmd(gentry("bess", old[int](glen("bess")))), gate, cir, pir, cbs, pbs, ebs)
 
 //@ func calcBurstSizeFromRate(kbps uint64, ms uint64) (r uint64)
 //@   ensures C09.burst.floor@thorough: kbps < 1<<40 && ms < 1<<32 ==> mulGE(r, 1000, kbps, ms, 125)
 
 //@ func (b *bess) addQER#1() free(b *bess, qer qer)
 //@   lemmas bvarith
-//@   requires b != nil && b.qciQosMap != nil && has(b.qciQosMap, 0)
+//@   requires b != nil && b.client != nil && b.qciQosMap != nil && has(b.qciQosMap, 0)
 //@   requires forall k uint8 :: has(b.qciQosMap, k) ==> b.qciQosMap[k] != nil
 //@   ensures C09.bess.calls: qer.qosLevel <= 1 ==> glen("qer") == old[int](glen("qer"))+2
 //@   ensures C09.bess.none: qer.qosLevel > 1 ==> glen("qer") == old[int](glen("qer"))
@@ -2096,9 +2108,10 @@ func specIsInt(fd *pb.FieldData) bool {
 
 func specFD(fd *pb.FieldData) uint64 { return fd.Encoding.(*pb.FieldData_ValueInt).ValueInt }
 
-// specIntsN: the slice holds n integer-encoded fields.
+// specInts: the slice holds n integer-encoded fields (n <= 8; written out, without a quantifier).
 func specInts(fs []*pb.FieldData, n int) bool {
-	return len(fs) == n && forall(func(i int) bool { return implies(0 <= i && i < n, specIsInt(fs[i])) })
+	return len(fs) == n && (n < 1 || specIsInt(fs[0])) && (n < 2 || specIsInt(fs[1])) && (n < 3 || specIsInt(fs[2])) && (n < 4 || specIsInt(fs[3])) &&
+		(n < 5 || specIsInt(fs[4])) && (n < 6 || specIsInt(fs[5])) && (n < 7 || specIsInt(fs[6])) && (n < 8 || specIsInt(fs[7])) && n <= 8
 }
 
 func specBessCmd(e int, name, cmd string) bool {
@@ -2168,16 +2181,18 @@ func specCartRule(src, dst portRange, k int) portRangeTernaryCartesianProduct { 
 
 func specCartLen(src, dst portRange) int { panic("ghost") }
 
-func specPdrKey(values, masks []*pb.FieldData, p pdr, r portRangeTernaryCartesianProduct) bool {
-	return specInts(values, 8) && specInts(masks, 8) &&
-		specFD(values[0]) == uint64(p.srcIface) && specFD(masks[0]) == uint64(p.srcIfaceMask) &&
-		specFD(values[1]) == uint64(p.tunnelIP4Dst) && specFD(masks[1]) == uint64(p.tunnelIP4DstMask) &&
-		specFD(values[2]) == uint64(p.tunnelTEID) && specFD(masks[2]) == uint64(p.tunnelTEIDMask) &&
-		specFD(values[3]) == uint64(p.appFilter.srcIP) && specFD(masks[3]) == uint64(p.appFilter.srcIPMask) &&
-		specFD(values[4]) == uint64(p.appFilter.dstIP) && specFD(masks[4]) == uint64(p.appFilter.dstIPMask) &&
-		specFD(values[5]) == uint64(r.srcPort) && specFD(masks[5]) == uint64(r.srcMask) &&
-		specFD(values[6]) == uint64(r.dstPort) && specFD(masks[6]) == uint64(r.dstMask) &&
-		specFD(values[7]) == uint64(p.appFilter.proto) && specFD(masks[7]) == uint64(p.appFilter.protoMask)
+func specPdrValues(values []*pb.FieldData, p pdr, r portRangeTernaryCartesianProduct) bool {
+	return specInts(values, 8) &&
+		specFD(values[0]) == uint64(p.srcIface) && specFD(values[1]) == uint64(p.tunnelIP4Dst) && specFD(values[2]) == uint64(p.tunnelTEID) &&
+		specFD(values[3]) == uint64(p.appFilter.srcIP) && specFD(values[4]) == uint64(p.appFilter.dstIP) &&
+		specFD(values[5]) == uint64(r.srcPort) && specFD(values[6]) == uint64(r.dstPort) && specFD(values[7]) == uint64(p.appFilter.proto)
+}
+
+func specPdrMasks(masks []*pb.FieldData, p pdr, r portRangeTernaryCartesianProduct) bool {
+	return specInts(masks, 8) &&
+		specFD(masks[0]) == uint64(p.srcIfaceMask) && specFD(masks[1]) == uint64(p.tunnelIP4DstMask) && specFD(masks[2]) == uint64(p.tunnelTEIDMask) &&
+		specFD(masks[3]) == uint64(p.appFilter.srcIPMask) && specFD(masks[4]) == uint64(p.appFilter.dstIPMask) &&
+		specFD(masks[5]) == uint64(r.srcMask) && specFD(masks[6]) == uint64(r.dstMask) && specFD(masks[7]) == uint64(p.appFilter.protoMask)
 }
 
 func specPdrAddArg(e int) *pb.WildcardMatchCommandAddArg {
@@ -2196,32 +2211,89 @@ func specFirstQerID(p pdr) uint32 {
 	return 0
 }
 
-// specPdrAdded: command e installs PDR p under port rule r.
-func specPdrAdded(e int, p pdr, r portRangeTernaryCartesianProduct) bool {
-	return specBessCmd(e, "pdrLookup", "add") && live(specPdrAddArg(e)) && specPdrKey(specPdrAddArg(e).Values, specPdrAddArg(e).Masks, p, r) &&
-		specPdrAddArg(e).Gate == uint64(p.needDecap) && specPdrAddArg(e).Priority == int64(4294967295-p.precedence) &&
+// specPdrAdded*: command e installs PDR p under port rule r (three parts: the key is values and masks).
+func specPdrAddedValues(e int, p pdr, r portRangeTernaryCartesianProduct) bool {
+	return specBessCmd(e, "pdrLookup", "add") && live(specPdrAddArg(e)) && specPdrValues(specPdrAddArg(e).Values, p, r)
+}
+
+func specPdrAddedMasks(e int, p pdr, r portRangeTernaryCartesianProduct) bool {
+	return live(specPdrAddArg(e)) && specPdrMasks(specPdrAddArg(e).Masks, p, r)
+}
+
+func specPdrAddedResult(e int, p pdr) bool {
+	return live(specPdrAddArg(e)) && specPdrAddArg(e).Gate == uint64(p.needDecap) && specPdrAddArg(e).Priority == int64(4294967295-p.precedence) &&
 		specInts(specPdrAddArg(e).Valuesv, 5) && specFD(specPdrAddArg(e).Valuesv[0]) == uint64(p.pdrID) && specFD(specPdrAddArg(e).Valuesv[1]) == p.fseID &&
 		specFD(specPdrAddArg(e).Valuesv[2]) == uint64(p.ctrID) && specFD(specPdrAddArg(e).Valuesv[3]) == uint64(specFirstQerID(p)) && specFD(specPdrAddArg(e).Valuesv[4]) == uint64(p.farID)
 }
 
-func specPdrDeleted(e int, p pdr, r portRangeTernaryCartesianProduct) bool {
-	return specBessCmd(e, "pdrLookup", "delete") && live(specPdrDelArg(e)) && specPdrKey(specPdrDelArg(e).Values, specPdrDelArg(e).Masks, p, r)
+func specPdrDeletedValues(e int, p pdr, r portRangeTernaryCartesianProduct) bool {
+	return specBessCmd(e, "pdrLookup", "delete") && live(specPdrDelArg(e)) && specPdrValues(specPdrDelArg(e).Values, p, r)
+}
+
+func specPdrDeletedMasks(e int, p pdr, r portRangeTernaryCartesianProduct) bool {
+	return live(specPdrDelArg(e)) && specPdrMasks(specPdrDelArg(e).Masks, p, r)
 }
 
 //@ func (b *bess) addPDR#1() free(b *bess, p pdr)
 //@   requires b != nil && b.client != nil
 //@   ensures C03.pdr.add.count: gint("marshalfail") == old[int](gint("marshalfail")) && glen("bess") != old[int](glen("bess")) ==> glen("bess") == old[int](glen("bess"))+specCartLen(p.appFilter.srcPortRange, p.appFilter.dstPortRange)
-//@   ensures C03.pdr.add.entries: forall m int :: old[int](glen("bess")) <= m && m < glen("bess") ==> specPdrAdded(gentry("bess", m), p, specCartRule(p.appFilter.srcPortRange, p.appFilter.dstPortRange, m-old[int](glen("bess"))))
+//@   ensures C03.pdr.add.values: forall m int :: old[int](glen("bess")) <= m && m < glen("bess") ==> specPdrAddedValues(gentry("bess", m), p, specCartRule(p.appFilter.srcPortRange, p.appFilter.dstPortRange, m-old[int](glen("bess"))))
+//@   ensures C03.pdr.add.masks: forall m int :: old[int](glen("bess")) <= m && m < glen("bess") ==> specPdrAddedMasks(gentry("bess", m), p, specCartRule(p.appFilter.srcPortRange, p.appFilter.dstPortRange, m-old[int](glen("bess"))))
+//@   ensures C03.pdr.add.result: forall m int :: old[int](glen("bess")) <= m && m < glen("bess") ==> specPdrAddedResult(gentry("bess", m), p)
 //@   loop 1 freshwrites pb.WildcardMatchCommandAddArg, pb.FieldData, pb.FieldData_ValueInt, pb.CommandRequest, E:*pb.FieldData
 //@   loop 1 invariant C03.pdr.add.l1.count: glen("bess") == old[int](glen("bess"))+rangeidx+1 && gint("marshalfail") == old[int](gint("marshalfail")) && len(portRules) == specCartLen(p.appFilter.srcPortRange, p.appFilter.dstPortRange)
 //@   loop 1 invariant C03.pdr.add.l1.rules: forall a int :: lo(portRules) <= a && a < hi(portRules) ==> at(portRules, a) == specCartRule(p.appFilter.srcPortRange, p.appFilter.dstPortRange, a-lo(portRules))
-//@   loop 1 invariant C03.pdr.add.l1.entries: forall m int :: old[int](glen("bess")) <= m && m < glen("bess") ==> specPdrAdded(gentry("bess", m), p, specCartRule(p.appFilter.srcPortRange, p.appFilter.dstPortRange, m-old[int](glen("bess"))))
+//@   loop 1 invariant C03.pdr.add.l1.values: forall m int :: old[int](glen("bess")) <= m && m < glen("bess") ==> specPdrAddedValues(gentry("bess", m), p, specCartRule(p.appFilter.srcPortRange, p.appFilter.dstPortRange, m-old[int](glen("bess"))))
+//@   loop 1 invariant C03.pdr.add.l1.masks: forall m int :: old[int](glen("bess")) <= m && m < glen("bess") ==> specPdrAddedMasks(gentry("bess", m), p, specCartRule(p.appFilter.srcPortRange, p.appFilter.dstPortRange, m-old[int](glen("bess"))))
+//@   loop 1 invariant C03.pdr.add.l1.result: forall m int :: old[int](glen("bess")) <= m && m < glen("bess") ==> specPdrAddedResult(gentry("bess", m), p)
 
 //@ func (b *bess) delPDR#1() free(b *bess, p pdr)
 //@   requires b != nil && b.client != nil
 //@   ensures C03.pdr.del.count: gint("marshalfail") == old[int](gint("marshalfail")) && glen("bess") != old[int](glen("bess")) ==> glen("bess") == old[int](glen("bess"))+specCartLen(p.appFilter.srcPortRange, p.appFilter.dstPortRange)
-//@   ensures C03.pdr.del.entries: forall m int :: old[int](glen("bess")) <= m && m < glen("bess") ==> specPdrDeleted(gentry("bess", m), p, specCartRule(p.appFilter.srcPortRange, p.appFilter.dstPortRange, m-old[int](glen("bess"))))
+//@   ensures C03.pdr.del.values: forall m int :: old[int](glen("bess")) <= m && m < glen("bess") ==> specPdrDeletedValues(gentry("bess", m), p, specCartRule(p.appFilter.srcPortRange, p.appFilter.dstPortRange, m-old[int](glen("bess"))))
+//@   ensures C03.pdr.del.masks: forall m int :: old[int](glen("bess")) <= m && m < glen("bess") ==> specPdrDeletedMasks(gentry("bess", m), p, specCartRule(p.appFilter.srcPortRange, p.appFilter.dstPortRange, m-old[int](glen("bess"))))
 //@   loop 1 freshwrites pb.WildcardMatchCommandDeleteArg, pb.FieldData, pb.FieldData_ValueInt, pb.CommandRequest, E:*pb.FieldData
 //@   loop 1 invariant C03.pdr.del.l1.count: glen("bess") == old[int](glen("bess"))+rangeidx+1 && gint("marshalfail") == old[int](gint("marshalfail")) && len(portRules) == specCartLen(p.appFilter.srcPortRange, p.appFilter.dstPortRange)
 //@   loop 1 invariant C03.pdr.del.l1.rules: forall a int :: lo(portRules) <= a && a < hi(portRules) ==> at(portRules, a) == specCartRule(p.appFilter.srcPortRange, p.appFilter.dstPortRange, a-lo(portRules))
-//@   loop 1 invariant C03.pdr.del.l1.entries: forall m int :: old[int](glen("bess")) <= m && m < glen("bess") ==> specPdrDeleted(gentry("bess", m), p, specCartRule(p.appFilter.srcPortRange, p.appFilter.dstPortRange, m-old[int](glen("bess"))))
+//@   loop 1 invariant C03.pdr.del.l1.values: forall m int :: old[int](glen("bess")) <= m && m < glen("bess") ==> specPdrDeletedValues(gentry("bess", m), p, specCartRule(p.appFilter.srcPortRange, p.appFilter.dstPortRange, m-old[int](glen("bess"))))
+//@   loop 1 invariant C03.pdr.del.l1.masks: forall m int :: old[int](glen("bess")) <= m && m < glen("bess") ==> specPdrDeletedMasks(gentry("bess", m), p, specCartRule(p.appFilter.srcPortRange, p.appFilter.dstPortRange, m-old[int](glen("bess"))))
+
+// ---- QER ----
+
+func specAppQerKey(fs []*pb.FieldData, srcIface uint8, q qer) bool {
+	return specInts(fs, 3) && specFD(fs[0]) == uint64(srcIface) && specFD(fs[1]) == uint64(q.qerID) && specFD(fs[2]) == q.fseID
+}
+
+func specSessQerKey(fs []*pb.FieldData, srcIface uint8, q qer) bool {
+	return specInts(fs, 2) && specFD(fs[0]) == uint64(srcIface) && specFD(fs[1]) == q.fseID
+}
+
+func specQosArg(a *pb.QosCommandAddArg, gate, cir, pir, cbs, pbs, ebs uint64) bool {
+	return a.Gate == gate && a.Cir == cir && a.Pir == pir && a.Cbs == cbs && a.Pbs == pbs && a.Ebs == ebs
+}
+
+func specQosDelArg(e int) *pb.QosCommandDeleteArg {
+	return ptrAt[pb.QosCommandDeleteArg](int(gfield("bess.arg", e)))
+}
+
+//@ func (b *bess) delApplicationQER(ctx context.Context, srcIface uint8, qer qer)
+//@   freshwrites pb.QosCommandDeleteArg, pb.QosCommandAddArg, pb.FieldData, pb.FieldData_ValueInt, pb.CommandRequest, E:*pb.FieldData
+//@   requires b != nil && b.client != nil
+//@   ensures gint("marshalfail") >= old[int](gint("marshalfail"))
+//@   ensures C03.qer.app.del.count: glen("bess") <= old[int](glen("bess"))+1 && (gint("marshalfail") == old[int](gint("marshalfail")) ==> glen("bess") == old[int](glen("bess"))+1)
+//@   ensures C03.qer.app.del.key: glen("bess") == old[int](glen("bess"))+1 ==> specBessCmd(gentry("bess", old[int](glen("bess"))), AppQerLookup, "delete") && live(specQosDelArg(gentry("bess", old[int](glen("bess"))))) && specAppQerKey(specQosDelArg(gentry("bess", old[int](glen("bess")))).Fields, srcIface, qer)
+
+//@ func (b *bess) delSessionQER(ctx context.Context, srcIface uint8, qer qer)
+//@   freshwrites pb.QosCommandDeleteArg, pb.QosCommandAddArg, pb.FieldData, pb.FieldData_ValueInt, pb.CommandRequest, E:*pb.FieldData
+//@   requires b != nil && b.client != nil
+//@   ensures gint("marshalfail") >= old[int](gint("marshalfail"))
+//@   ensures C03.qer.sess.del.count: glen("bess") <= old[int](glen("bess"))+1 && (gint("marshalfail") == old[int](gint("marshalfail")) ==> glen("bess") == old[int](glen("bess"))+1)
+//@   ensures C03.qer.sess.del.key: glen("bess") == old[int](glen("bess"))+1 ==> specBessCmd(gentry("bess", old[int](glen("bess"))), SessQerLookup, "delete") && live(specQosDelArg(gentry("bess", old[int](glen("bess"))))) && specSessQerKey(specQosDelArg(gentry("bess", old[int](glen("bess")))).Fields, srcIface, qer)
+
+// delQER: one uplink and one downlink entry of the table of the QER's level are deleted - the
+// same two keys addQER installs.
+//@ func (b *bess) delQER#1() free(b *bess, qer qer)
+//@   requires b != nil && b.client != nil
+//@   ensures C03.qer.del.count: gint("marshalfail") == old[int](gint("marshalfail")) ==> (qer.qosLevel <= 1 ==> glen("bess") == old[int](glen("bess"))+2) && (qer.qosLevel > 1 ==> glen("bess") == old[int](glen("bess")))
+//@   ensures C03.qer.del.app: gint("marshalfail") == old[int](gint("marshalfail")) && qer.qosLevel == ApplicationQos ==> specBessCmd(gentry("bess", old[int](glen("bess"))), AppQerLookup, "delete") && specAppQerKey(specQosDelArg(gentry("bess", old[int](glen("bess")))).Fields, access, qer) && specBessCmd(gentry("bess", old[int](glen("bess"))+1), AppQerLookup, "delete") && specAppQerKey(specQosDelArg(gentry("bess", old[int](glen("bess"))+1)).Fields, core, qer)
+//@   ensures C03.qer.del.sess: gint("marshalfail") == old[int](gint("marshalfail")) && qer.qosLevel == SessionQos ==> specBessCmd(gentry("bess", old[int](glen("bess"))), SessQerLookup, "delete") && specSessQerKey(specQosDelArg(gentry("bess", old[int](glen("bess")))).Fields, access, qer) && specBessCmd(gentry("bess", old[int](glen("bess"))+1), SessQerLookup, "delete") && specSessQerKey(specQosDelArg(gentry("bess", old[int](glen("bess"))+1)).Fields, core, qer)
